@@ -45,20 +45,22 @@ Section AsmMH.
   Definition deg45 : cplx := (#1 +. zero, one).                                (* 1+I *)
 
   (* ---- circuit pre-pass (harmonic2d.cpp:96-170) ---- *)
+  Definition hcirc_step (P : mprob (F:=F)) (acc : cvec * cvec * cvec) (el : melem (F:=F)) : cvec * cvec * cvec :=
+    let '(c1, c2, c3) := acc in
+    let lab := nth (mlbl el) (mlabels P) (dmlabel) in
+    match lcirc lab with
+    | None => acc
+    | Some ic =>
+        let a := ga (mel_geom A P el) in
+        let blk := nth (mblk el) (mblocks P) (dmblock A) in
+        let Cduct := if is_wound A P lab then zero else bCduct blk in
+        (vset c1 ic (caddd (vget C c1 ic) a),
+         vset c2 ic (caddd (vget C c2 ic) (a *. Cduct)),
+         vset c3 ic (cadd A (vget C c3 ic) (cmuld (cmuld (re_I_im (bJre blk) (bJim blk)) a) #100)))
+    end.
+
   Definition hcirc_ints (P : mprob (F:=F)) (nc : nat) : cvec * cvec * cvec :=
-    fold_left (fun acc el =>
-      let '(c1, c2, c3) := acc in
-      let lab := nth (mlbl el) (mlabels P) (dmlabel) in
-      match lcirc lab with
-      | None => acc
-      | Some ic =>
-          let a := ga (mel_geom A P el) in
-          let blk := nth (mblk el) (mblocks P) (dmblock A) in
-          let Cduct := if is_wound A P lab then zero else bCduct blk in
-          (vset c1 ic (caddd (vget C c1 ic) a),
-           vset c2 ic (caddd (vget C c2 ic) (a *. Cduct)),
-           vset c3 ic (cadd A (vget C c3 ic) (cmuld (cmuld (re_I_im (bJre blk) (bJim blk)) a) #100)))
-      end) (melems P) (repeat c0 nc, repeat c0 nc, repeat c0 nc).
+    fold_left (hcirc_step P) (melems P) (repeat c0 nc, repeat c0 nc, repeat c0 nc).
 
   (* (Case, J, dV) *)
   Definition hcirc_case (c : mcirc (F:=F)) (i1 i2 i3 : cplx) : nat * cplx * cplx :=
